@@ -30,6 +30,7 @@ type Merged struct {
 	Sets       map[string][]string
 	Samples    []json.RawMessage
 	Extra      map[string]interface{} // additional coverage keys
+	DistinctOf map[string]map[uint64]bool
 	Inconcl    []string
 	Scratch    string
 }
@@ -237,7 +238,7 @@ func Orchestrate(id, tier string) int {
 		timeout = p.ShardTimeout(tier)
 	}
 	m := &Merged{Prop: p, Tier: tier, Seed: seed, Obs: map[string]int64{}, Max: map[string]int64{},
-		Sets: map[string][]string{}, Extra: map[string]interface{}{}, Scratch: scratch}
+		Sets: map[string][]string{}, Extra: map[string]interface{}{}, Scratch: scratch, DistinctOf: map[string]map[uint64]bool{}}
 	distinct := map[uint64]bool{}
 	setIdx := map[string]map[string]bool{}
 	var mu sync.Mutex
@@ -415,6 +416,16 @@ func mergeShard(m *Merged, so *ShardOut, distinct map[uint64]bool, setIdx map[st
 				idx[s] = true
 				m.Sets[k] = append(m.Sets[k], s)
 			}
+		}
+	}
+	for set, l := range so.Distinct {
+		d := m.DistinctOf[set]
+		if d == nil {
+			d = map[uint64]bool{}
+			m.DistinctOf[set] = d
+		}
+		for _, h := range l {
+			d[h] = true
 		}
 	}
 	for _, s := range so.Samples {
@@ -644,6 +655,13 @@ func finish(m *Merged, vdir string, wall time.Duration) int {
 	}
 	if len(m.Samples) == 0 {
 		cov["samples"] = []interface{}{}
+	}
+	if len(m.DistinctOf) > 0 {
+		ds := map[string]int{}
+		for set, d := range m.DistinctOf {
+			ds[set] = len(d)
+		}
+		cov["distinct_observed"] = ds
 	}
 	for k, v := range m.Extra {
 		cov[k] = v
